@@ -34,6 +34,11 @@ def decide(run, prop, recs, res, errors, theorems, which):
     bad = res[1] if which == "c05" else res[2]
     run.oblige("specification holds on every implementation outcome", not bad, "")
     broken = standard_proof_obligations(run, prop, theorems)
+    # the same theorems about the translation of the current formula.rs (through proofs/FormulaTie.v), when that tie stands
+    if which == "c05":
+        broken += source_corollaries(run, "C05s", ["C05s_no_panic", "C05s_no_panic_entries", "C05s_sound", "C05s_sound_entries", "C05s_fuel_needed", "C05s_nonvacuous"], ("formula",))
+    else:
+        broken += source_corollaries(run, "C01s", ["C01s_parse_complete", "C01s_parse_complete_entries", "C01s_nonvacuous"], ("formula",))
     if bad:
         violation(run, {"failing_input": by_id[bad[0]],
                         "what": "an entry point panicked, accepted text that is not a well-formed formula, rejected a well-formed one, or returned "
